@@ -158,6 +158,7 @@ class Trace:
         self.events = []        # ("s", x) | ("d", Rec) | ("e", x)
         self.status = "ok"
         self.error = None
+        self.light = 0          # dykstra calls (never box-last) passed through without recording
 
 
 def traced_run(dfols, pb, alarm=20):
@@ -166,10 +167,30 @@ def traced_run(dfols, pb, alarm=20):
     real = importlib.import_module("dfols.util").dykstra
     tr = Trace()
 
+    user_P = [dc.make_proj(dfols, s) for s in pb["specs"]]
+    tr.user_P = user_P
+    state = {"bproj": None, "first": True, "k": 0}
+
     def dyk(P, x0, max_iter=100, tol=1e-10):
-        rec = dc.record_call(real, list(P), x0, max_iter=max_iter, tol=tol)
-        tr.events.append(("d", rec))
-        return rec.x.copy()
+        P = list(P)
+        if state["first"]:
+            # solver.py:1094 — the projector list is the user's plus solve()'s box (checked again in analyse)
+            state["first"] = False
+            if len(P) == len(user_P) + 1:
+                state["bproj"] = P[-1]
+            full = True
+        else:
+            state["k"] += 1
+            # every box-last call is recorded in full; of the others (trust-region sub-problems,
+            # ball projected last) every 40th — they are never evaluated, they only feed the call correspondence
+            full = (P[-1] is state["bproj"]) or state["k"] % 40 == 0
+        if full:
+            rec = dc.record_call(real, P, x0, max_iter=max_iter, tol=tol)
+            tr.events.append(("d", rec))
+            return rec.x.copy()
+        x = real(P, x0, max_iter=max_iter, tol=tol)
+        tr.light += 1
+        return x
 
     f0 = objective(pb)
 
@@ -177,8 +198,6 @@ def traced_run(dfols, pb, alarm=20):
         tr.events.append(("e", np.array(x, dtype=float, copy=True)))
         return f0(x)
 
-    user_P = [dc.make_proj(dfols, s) for s in pb["specs"]]
-    tr.user_P = user_P
     saved = []
     for m in mods:
         if hasattr(m, "dykstra"):
@@ -226,7 +245,7 @@ def user_bounds(pb):
 def analyse(pb, tr):
     """the property on one recorded run.  returns (failures [(sig, what)], info, annotated events)"""
     fails = []
-    info = {"evals": 0, "dyk_calls": 0, "box_last_calls": 0, "evals_checked_bound": 0, "evals_from_capped_call": 0,
+    info = {"evals": 0, "dyk_calls": 0, "dyk_calls_unrecorded_ball_last": tr.light, "box_last_calls": 0, "evals_checked_bound": 0, "evals_from_capped_call": 0,
             "evals_repeat_first": 0, "x0_replaced": False, "max_dist_over_bound": 0.0}
     xl, xu = user_bounds(pb)
     boxspec = ("B", xl, xu)
@@ -321,7 +340,7 @@ def trace_line(n, ann):
 
 def run_suite(ctx, nruns, suite, with_lean):
     dfols = core.import_dfols()
-    stats = {"runs": 0, "ok": 0, "skipped_initdirs_RuntimeError": 0, "timeouts": 0, "raised_other": 0, "evals": 0, "dyk_calls": 0,
+    stats = {"runs": 0, "ok": 0, "skipped_initdirs_RuntimeError": 0, "timeouts": 0, "raised_other": 0, "evals": 0, "dyk_calls": 0, "dyk_calls_unrecorded_ball_last": 0,
              "box_last_calls": 0, "evals_checked_bound": 0, "evals_from_capped_call": 0, "evals_repeat_first": 0,
              "x0_replaced": 0, "max_dist_over_bound": 0.0, "by_restarts": {}, "by_x0": {}, "with_bounds": 0, "flags": {},
              "other_errors": []}
@@ -347,7 +366,7 @@ def run_suite(ctx, nruns, suite, with_lean):
             stats["flags"][str(tr.flag)] = stats["flags"].get(str(tr.flag), 0) + 1
         # whatever happened, the events recorded up to that moment are a prefix of a run: the property applies to them
         fails, info, ann = analyse(pb, tr)
-        for k in ["evals", "dyk_calls", "box_last_calls", "evals_checked_bound", "evals_from_capped_call", "evals_repeat_first"]:
+        for k in ["evals", "dyk_calls", "dyk_calls_unrecorded_ball_last", "box_last_calls", "evals_checked_bound", "evals_from_capped_call", "evals_repeat_first"]:
             stats[k] += info[k]
         stats["x0_replaced"] += bool(info["x0_replaced"])
         stats["max_dist_over_bound"] = max(stats["max_dist_over_bound"], info["max_dist_over_bound"])
